@@ -119,6 +119,23 @@ pub unsafe fn links_snapshot<T>(rcbox: usize) -> Option<Vec<(u8, usize, usize)>>
     Some(out)
 }
 
+/// Capacity of the link table stored in the `RcBox` at `rcbox` (non-zero exactly
+/// when the table owns heap storage). Returns `None` if the table is currently
+/// mutably borrowed.
+///
+/// # Safety
+///
+/// Same contract as [`links_snapshot`].
+#[must_use]
+pub unsafe fn links_capacity<T>(rcbox: usize) -> Option<usize> {
+    let rcbox = rcbox as *const RcBox<T>;
+    let links = &(*rcbox).links;
+    let cell = &*(links as *const core::mem::MaybeUninit<_>)
+        .cast::<core::cell::RefCell<crate::link::Links<T>>>();
+    let links = cell.try_borrow().ok()?;
+    Some(links.capacity())
+}
+
 /// The address of the `RcBox` behind a strong handle.
 #[must_use]
 pub fn rcbox_addr<T>(this: &crate::Rc<T>) -> usize {
